@@ -26,7 +26,8 @@ static std::string oracle(const Case& c) {
         if (op % 3 == 2) only_same = false; else same_parity ^= 1;
         char* in = (char*)malloc(use.size() + 1); memcpy(in, use.c_str(), use.size() + 1); // exactly sized: an over-read hits a red zone
         k.kdf.clear(); k.truncated = false;
-        polyseed_crypt(s, in);
+        if (c.u("allocfail")) k.fail_all = true;   /* the operation needs no memory: an exhausted allocator must not change its result */
+        polyseed_crypt(s, in); k.fail_all = false;
         bool modified = memcmp(in, use.c_str(), use.size() + 1) != 0; free(in); if (modified) return "crypt modified the password buffer";
         if (k.kdf.size() != 1) return "crypt invoked the KDF " + std::to_string(k.kdf.size()) + " times, must be exactly once";
         const deps::KdfCall& kc = k.kdf[0]; auto salt = model::crypt_salt();
@@ -81,7 +82,7 @@ static void run() {
         int n = *rc::gen::element(1, 1, 2, 2, 2, 3, 4); std::string chain; bool mixed = *in_range<int>(0, 3) == 0; for (int i = 0; i < n; i++) chain.push_back((char)(mixed ? *in_range<int>(0, 3) : *in_range<int>(0, 2)));
         c.set("chain", hex(chain)); int mm = *in_range<int>(0, 2); c.set("maskmode", (uint64_t)mm);
         if (mm == 1) c.set("mask", hex(*rc::gen::weightedOneOf<std::vector<uint8_t>>({{4, vf::bytes(32)}, {1, rc::gen::just(std::vector<uint8_t>(32, 0))}, {1, rc::gen::just(std::vector<uint8_t>(32, 0xFF))}, {2, rc::gen::map(vf::bytes(32), [](std::vector<uint8_t> v) { v[18] |= 0xC0; return v; })}})));
-        c.set("lang", REG->at(*g::lang_index()).name_en); c.set("coin", (uint64_t)*g::coin());
+        c.set("lang", REG->at(*g::lang_index()).name_en); c.set("coin", (uint64_t)*g::coin()); if (*in_range<int>(0, 8) == 0) c.set("allocfail", 1);
         set_current(c); std::string m = oracle(c); if (!m.empty()) VF_FAIL(c, m);
     });
 }
